@@ -28,7 +28,7 @@ def parse_perrs(s):
 # ---------------------------------------------------------------- C14
 C14_THMS = ['Theo.C14_nullable_correct', 'Theo.C14_deriv_correct', 'Theo.C14_matchesB_correct', 'Theo.C14_longest_match',
             'Theo.C14_longest_none', 'Theo.C14_total', 'Theo.C14_partition', 'Theo.C14_each_maxmunch',
-            'Theo.C14_tokens_are_lexemes', 'Theo.C14_lines', 'Theo.C14_keywords', 'Theo.C14_catch_all',
+            'Theo.C14_tokens_are_lexemes', 'Theo.C14_lines', 'Theo.C14_keywords', 'Theo.C14_keywords_documented', 'Theo.C14_catch_all',
             'Theo.C14_one_eof', 'Theo.C14_token_files']
 
 
@@ -82,6 +82,35 @@ def check_C14(ctx):
         if got != [e]:
             ctx.violation('keyword-spelling', 'spelling %r lexes to %s, expected kind %d' % (e[1], got, e[0]), {'buffer_hex': e[1].hex()})
     ctx.cov['keyword_spellings_checked'] = len(kws)
+    # near misses of the documented spellings (pinned table Theo/Spec/Keywords.lean): every prefix of every spelling in
+    # every capitalisation, and one-letter extensions; a documented spelling has its documented kind, every other
+    # identifier-shaped word is ONE identifier token
+    doc = {}
+    spec = open(os.path.join(LEAN, 'Theo/Spec/Keywords.lean')).read()
+    for nm, body in re.findall(r'\(Tok\.(\w+), \[([^\]]*)\]\)', spec):
+        for w in re.findall(r'"([^"]*)"', body):
+            doc[w] = lexoracle.kind(nm)
+    words = set()
+    for w in doc:
+        if not re.fullmatch(r'[A-Za-z ]+', w):
+            continue
+        for i in range(1, len(w) + 1):
+            p_ = w[:i]
+            for v in (p_.upper(), p_.lower(), p_.capitalize(), p_.swapcase(), p_.title()):
+                words.add(v)
+        for v in (w + 's', w + 'S', w + '_', w + '0', 'x' + w, w.upper() + w.lower()):
+            words.add(v)
+    words = sorted(x for x in words if re.fullmatch(r'[A-Za-z_][A-Za-z0-9_]*', x))
+    outs = impl(ctx, ['LEX c ' + hx(x.encode()) for x in words])
+    idk = lexoracle.kind('ID')
+    for x, o in zip(words, outs):
+        ctx.cov['evaluations'] += 1
+        got = [(k, t, l) for (k, t, _, l) in parse_toks(fields(o)['toks'])] if not is_crash(o) else None
+        want = [(doc.get(x, idk), x.encode(), 1)]
+        if got != want:
+            ctx.violation('keyword-spelling', 'the word %r lexes to %s; documented: %s' % (x, got, 'keyword kind %d' % doc[x] if x in doc else 'an identifier (not a documented keyword spelling)'),
+                          {'buffer_hex': x.encode().hex()})
+    ctx.cov['near_miss_words_checked'] = len(words)
     # (d) stream level: include splice
     cases = front.include_graphs(ctx, ctx.n(400, 4000))
     sa, sb = front.corr_scan(ctx, cases)
@@ -678,12 +707,13 @@ def check_C02(ctx):
 
 
 # ---------------------------------------------------------------- C04
-C04_THMS = ['Theo.C04_parse_sound', 'Theo.C04_parse_complete', 'Theo.C04_parse_iff', 'Theo.C04_parse_fuel_ok', 'Theo.C04_errors_not_lost']
+C04_THMS = ['Theo.C04_parse_sound', 'Theo.C04_parse_complete', 'Theo.C04_parse_iff', 'Theo.C04_parse_fuel_ok', 'Theo.C04_errors_not_lost',
+            'Theo.C04_static_iff', 'Theo.C04_parser_shape', 'Theo.C04_accepts_iff', 'Theo.C04_compile_iff', 'Theo.C04_literal_rule']
 
 
 def check_C04(ctx, thms=None):
     from gen import strict
-    build_all(ctx, ['Theo.Props.C04'], thms or C04_THMS)
+    build_all(ctx, ['Theo.Props.C04', 'Theo.Props.C04Static'], thms or C04_THMS)
     if ctx.harness is None:
         return finish(ctx)
     r = ctx.rnd
@@ -720,13 +750,23 @@ def check_C04(ctx, thms=None):
             verdicts.append((v, why))
     a, b = front.corr_gen(ctx, cases, keys=['ok', 'errs'])
     front.corr_parse(ctx, cases[:ctx.n(800, 5000)])
-    for (m, f, meta), (v, why), x in zip(cases, verdicts, a):
+    # the Lean specification itself (grammar via the parser: C04_parse_iff; static rules: Spec/Static.lean) on the same inputs
+    spec = model(ctx, ['STATIC ' + files_req(m, f) for (m, f, _) in cases], timeout=300) if ctx.driver else [None] * len(cases)
+    ctx.count('STATIC', len(cases))
+    for (m, f, meta), (v, why), x, sp in zip(cases, verdicts, a, spec):
         ctx.cov['evaluations'] += 1
         if is_crash(x):
             ctx.violation('compile-crash', 'compile crashed: ' + x[:300], meta['text'])
             continue
         fx = fields(x)
         got = 'ACC' if fx['ok'] == '1' else 'REJ'
+        if sp is not None and not is_crash(sp):
+            fs = fields(sp)
+            if fs.get('accept') != fx['ok']:
+                ctx.violation('language-differs', 'the Lean specification (sentence of the grammar: %s, static rules RUN/JUMP/LIT/PARAM: %s) says %s but compile says %s' % (
+                    fs.get('frontok'), fs.get('static'), 'ACC' if fs.get('accept') == '1' else 'REJ', got), meta['text'])
+            if fs.get('frontok') == '1' and fs.get('shape') != '1':
+                ctx.stage_broken('an error-free parse produced a tree outside AstShape (C04_parser_shape contradicts the driver?)', sp, meta['text'])
         if got != v:
             ctx.violation('language-differs', 'the documented grammar + static rules say %s (%s) but compile says %s' % (v, why, got), meta['text'])
         if v == 'REJ' and fx['ok'] == '0' and fx['errs'] == '-':
